@@ -71,7 +71,9 @@ def main():
               "(a fourth, short round - ids ending in G, one change for each of ten properties - was caught entirely by the checks as they stood, except C03G and C05G "
               "which led to hand-built alignments at large float32-inexact times and to a clock-free termination guard for a sampler draw); "
               "round 1 - C04B, C05A, C05B, C06B, C07A, C07B, C09B, C11A, C12B, C14B, C15A, C19A, C19B, C20B; round 2 - C04D (C04 itself; C02/C07 caught it), C07D, "
-              "C09D (caught by C02 `larger`), C14D, and C20C/C20D whose demonstrations had to be run from inside the scratch worktree; round 3 - C06E, C16F. "
+              "C09D (caught by C02 `larger`), C14D, and C20C/C20D whose demonstrations had to be run from inside the scratch worktree; round 3 - C06E, C16F; "
+              "round 5 (ids ending in H, one change for each of the 20 properties, 19 kept - the C14 one breaks two repository tests) - C02H (new `bridge` sub-check), "
+              "C04H (new `supply-order` sub-check), C17H (exact affine time maps); the other 16 were caught by the checks as they stood. "
               "One further agent output (round-1 C02 variant B) duplicates C01B/C08A and is not kept separately.", ""] + notes + [""]
     # ---- hand-written faults
     rp = os.path.join(VERIF, "sensitivity", "results.json")
